@@ -171,6 +171,42 @@ def chk_float(case, note):
 
 
 
+# ---------------------------------------------------------------- reduced-precision scalar arguments (a latitude read from a float32 array)
+def enum_single(ctx):
+    idx = 0
+    for ti, t in enumerate(cpr.TRANS_LIST + [0.0, 87.0, 90.0, 45.0]):
+        for sign in (1, -1):
+            for k0 in range(-300, 301, 25):
+                idx += 1
+                if ctx.mine(idx):
+                    yield {"t": ti, "sign": sign, "k0": k0}
+
+
+def chk_single(case, note):
+    import numpy as np
+    t = (cpr.TRANS_LIST + [0.0, 87.0, 90.0, 45.0])[case["t"]] * case["sign"]
+    n = 0
+    for name in ("py", "c"):
+        f = impl(name)
+        y = np.float32(t)
+        for _ in range(abs(case["k0"])):
+            y = np.nextafter(y, np.float32(1000.0 if case["k0"] > 0 else -1000.0))
+        for k in range(25):
+            if abs(float(y)) <= 90.0:
+                for what, arg in (("numpy.float32", y), ("numpy.float64", np.float64(y))):
+                    r = call(f, arg)
+                    ok = cpr.NL_set(float(y))
+                    n += 1
+                    if r[0] != "ok" or isinstance(r[1], bool) or int(r[1]) != r[1] or int(r[1]) not in ok:
+                        return "[%s] cprNL(%s(%r)) -> %r; the latitude is exactly %r, DO-260B NL = %s, cprNL of the same value as a Python float = %r" % (
+                            name, what, float(y), r, float(y), sorted(ok), call(f, float(y)))
+            y = np.nextafter(y, np.float32(1000.0))
+    note.evals = n
+    note.cls("single-precision-neighbourhood")
+    note.nt(True, key=[case["t"], case["sign"], case["k0"]])
+    return None
+
+
 # ---------------------------------------------------------------- volume: one process, very many distinct latitudes
 def vol_step(a, b, k):
     lat = (a >> 11) / 9007199254740992.0 * 180.0 - 90.0
@@ -182,6 +218,8 @@ def vol_step(a, b, k):
 
 LEGS = [
     volume.leg(vol_step, 140000, 1300000, "140 000 (thorough: 1.3 million per process) distinct latitudes through cprNL in one process"),
+    Leg("single_precision", chk_single, enum=enum_single, exhaustive=False,
+        doc="numpy.float32 / float64 scalar latitudes: the 600 single-precision neighbours of every transition, 0, 87, 90, judged at their exact value"),
     Leg("grid", chk_grid, enum=enum_grid, exhaustive=True, doc="full latitude grid, both implementations, evenness and monotonicity"),
     Leg("neighbourhoods", chk_nbh, enum=enum_nbh, exhaustive=True, doc="ulp- to 2e-3-neighbourhoods of 58 transitions, 0, 87, 90"),
     Leg("floats", chk_float, strategy=s_lat, quick=20000, thorough=600000, doc="Hypothesis floats, transition-biased"),
